@@ -75,7 +75,7 @@ func rollHook(ck *sim.Kind, cns string, genSel bool) world.HookFunc {
 		}
 		if extra, _ := kit.Get(req, "parent", "spec", "template", "extra").(bool); extra {
 			for i := int64(0); i < n; i++ {
-				o := kit.Obj(kit.Gadget, cns, fmt.Sprintf("w%d", i))
+				o := kit.Obj(kit.CoreWidget, cns, fmt.Sprintf("w%d", i))
 				kit.Field(o, ver, "spec", "tpl")
 				if !genSel {
 					kit.Labels(o, "app", "x")
@@ -160,9 +160,10 @@ func (x *rollWorld) fair() {
 	}
 }
 
-// newRollWorld2: widgets and gadgets, both rolling with the same method, same child names.
+// newRollWorld2: two rolling child kinds with the same Kind ("Widget") and plural, one in apps.ex and one in the
+// core group, same method, same child names.
 func newRollWorld2(n int, method string, genSel bool) *rollWorld {
-	x := &rollWorld{pk: kit.Thing, pns: "n1", ck: kit.Widget, ck2: kit.Gadget, cns: "n1"}
+	x := &rollWorld{pk: kit.Thing, pns: "n1", ck: kit.Widget, ck2: kit.CoreWidget, cns: "n1"}
 	o := ccOpt{parent: x.pk, children: []*sim.Kind{x.ck, x.ck2}, generateSel: genSel,
 		methods: map[string]v1alpha1.ChildUpdateMethod{x.ck.Resource: v1alpha1.ChildUpdateMethod(method), x.ck2.Resource: v1alpha1.ChildUpdateMethod(method)}}
 	x.opt = o
